@@ -1,20 +1,28 @@
+// Side observation on the UNMODIFIED sources (not related to patch.diff): a failed worker-count increase leaves the MT context unusable.
+// Build: clang -g -O1 -fsanitize=address -DZSTD_MULTITHREAD -DZSTD_DISABLE_ASM -I lib _seed/side_mt_resize.c lib/common/*.c lib/compress/*.c lib/decompress/*.c -lpthread -o _seed/side_mt_resize
+// Run:   ASAN_OPTIONS=detect_leaks=0 ./_seed/side_mt_resize 3      (argument = which allocation after the first frame fails; 3..9 all misbehave)
 #define ZSTD_STATIC_LINKING_ONLY
-#include "zstd.h"
 #include <stdio.h>
 #include <stdlib.h>
 #include <string.h>
-int main(void){
-    size_t const N = 64u<<20;
-    char* src = malloc(N); unsigned s=1; for(size_t i=0;i<N;i++){ s=s*1103515245+12345; src[i]=(char)((s>>16)&0x3f);} 
-    size_t cap = ZSTD_compressBound(N); char* dst = malloc(cap);
-    ZSTD_CCtx* c = ZSTD_createCCtx();
-    ZSTD_CCtx_setParameter(c, ZSTD_c_compressionLevel, 19);
-    ZSTD_CCtx_setParameter(c, ZSTD_c_nbWorkers, 1);
-    ZSTD_inBuffer in = { src, N, 0 }; ZSTD_outBuffer out = { dst, 1<<10, 0 };
-    /* feed input, tiny output so that jobs stay in flight, then abort the frame */
-    for (int k=0;k<3;k++){ size_t r = ZSTD_compressStream2(c,&out,&in,ZSTD_e_continue); if(ZSTD_isError(r)){printf("err %s\n",ZSTD_getErrorName(r));return 1;} }
-    printf("consumed %zu, aborting\n", in.pos);
-    ZSTD_CCtx_reset(c, ZSTD_reset_session_only);
-    ZSTD_CCtx_setParameter(c, ZSTD_c_nbWorkers, 6);   /* bigger job table, bigger pools */
-    { size_t r = ZSTD_compress2(c, dst, cap, src, 1<<20); printf("second: %s\n", ZSTD_isError(r)?ZSTD_getErrorName(r):"ok"); }
-    ZSTD_freeCCtx(c); free(src); free(dst); return 0; }
+#include "zstd.h"
+static long cnt, failAt;
+static void* A(void* o, size_t s){ (void)o; cnt++; if (failAt && cnt==failAt) return NULL; return malloc(s);} 
+static void F(void* o, void* p){ (void)o; free(p);} 
+int main(int argc, char** argv){
+  ZSTD_customMem cm = {A,F,NULL}; size_t n = 1500000; char* src = malloc(n); char* dst = malloc(ZSTD_compressBound(n)); size_t i;
+  long k = atol(argv[1]);
+  for(i=0;i<n;i++) src[i]=(char)((i*7)%251 ^ (i>>9));
+  ZSTD_CCtx* c = ZSTD_createCCtx_advanced(cm);
+  ZSTD_CCtx_setParameter(c, ZSTD_c_nbWorkers, 1);
+  size_t r = ZSTD_compress2(c,dst,ZSTD_compressBound(n),src,n); printf("1 worker: %s (allocs so far %ld)\n", ZSTD_getErrorName(r), cnt);
+  ZSTD_CCtx_setParameter(c, ZSTD_c_nbWorkers, 4);
+  failAt = cnt + k;
+  r = ZSTD_compress2(c,dst,ZSTD_compressBound(n),src,n); printf("4 workers, fault at +%ld: %s\n", k, ZSTD_getErrorName(r));
+  failAt = 0;
+  ZSTD_CCtx_reset(c, ZSTD_reset_session_only);
+  r = ZSTD_compress2(c,dst,ZSTD_compressBound(n),src,n); printf("4 workers, retry, memory available: %s\n", ZSTD_getErrorName(r));
+  ZSTD_CCtx_reset(c, ZSTD_reset_session_only);
+  ZSTD_CCtx_setParameter(c, ZSTD_c_nbWorkers, 1);
+  r = ZSTD_compress2(c,dst,ZSTD_compressBound(n),src,n); printf("back to 1 worker: %s\n", ZSTD_getErrorName(r));
+  ZSTD_freeCCtx(c); return 0; }
